@@ -144,7 +144,7 @@ VERDICT_PROP = {
     "Euler relation fails": "C18",
     "a vertex triple is not counter-clockwise": "C18",
     "a vertex violates a stored half-space": "C01",
-    "panic inside a clip without a split edge in the plane": "C05",
+    "panic inside a clip": "C05",
     "builder did not finish this cell": "C05",
 }
 DRIFT = {"clipped although the safety radius was already below the distance",
